@@ -82,6 +82,11 @@ func (k *Keeper) SetBalance(ctx sdk.Context, addr common.Address, amount *big.In
 	switch delta.Sign() {
 	case 1:
 		// mint
+		// A blocked (module or precompile) address cannot receive funds: refuse before minting, otherwise
+		// the coins minted into the evm module account stay there when the send below fails.
+		if k.bankKeeper.BlockedAddr(cosmosAddr) {
+			return errorsmod.Wrapf(errortypes.ErrUnauthorized, "%s is not allowed to receive funds", cosmosAddr)
+		}
 		coins := sdk.NewCoins(sdk.NewCoin(params.EvmDenom, sdkmath.NewIntFromBigInt(delta)))
 		if err := k.bankKeeper.MintCoins(ctx, types.ModuleName, coins); err != nil {
 			return err
